@@ -78,7 +78,7 @@ let run (toks : string list) : string =
                          else not ((String.length t > 4 && String.sub t 0 4 = "pin=") || (String.length t > 5 && String.sub t 0 5 = "nacc="))) rest in
     (* the pairing database always holds the accessory's own entity (name = device id, public and private key) *)
     let acc_name = ascii0 "\001accessory" in
-    let w = ref (let e = Hap.empty_world !tbl in { e with Hap.store = [(acc_name, N0)] }) in
+    let w = ref (let e = Hap.empty_world !tbl in { e with Hap.store = [(acc_name, n_of_int 1000000)] }) in
     let ctrl_store () = L.filter (fun (n, _) -> n <> acc_name) !w.Hap.store in
     let secured : (string, bool) Hashtbl.t = Hashtbl.create 8 in
     let dead : (string, bool) Hashtbl.t = Hashtbl.create 8 in
@@ -127,6 +127,12 @@ let run (toks : string list) : string =
              | "noproof" -> if send Hap.PSStart then (ignore (send (Hap.PSVerify (Hap.AValid, Hap.PMissing))); ignore (send (Hap.PSKeyExch (Hap.KOther, gen, false))))
              | "a0" | "aN" | "a2N" | "aempty" ->
                if send Hap.PSStart then (ignore (send (Hap.PSVerify (Hap.AZeroModN, Hap.PWrong))); ignore (send (Hap.PSKeyExch (Hap.KZero, gen, false))))
+             | "aNforged" | "a0forged" | "aemptyforged" ->
+               if send Hap.PSStart then (ignore (send (Hap.PSVerify (Hap.AZeroModN, Hap.PWrong))); ignore (send (Hap.PSKeyExch (Hap.KOther, gen, false))))
+             | "wrongcodezero" ->
+               if send Hap.PSStart then (ignore (send (Hap.PSVerify (Hap.AValid, Hap.PWrong))); ignore (send (Hap.PSKeyExch (Hap.KZero, gen, false))))
+             | "m5zeroempty" -> ignore (send (Hap.PSKeyExch (Hap.KZero, gen, false)))
+             | "m5emptyhkdf" -> ignore (send (Hap.PSKeyExch (Hap.KOther, gen, false)))
              | "m5first" -> ignore (send (Hap.PSKeyExch (Hap.KZero, gen, false)))
              | "start" -> ignore (send Hap.PSStart)
              | "m3" -> ignore (send (Hap.PSVerify (Hap.AValid, Hap.PRight)))
@@ -214,7 +220,8 @@ let run (toks : string list) : string =
           end
         | ["R"; c; ctrl; what] ->
           if not (alive c) then emit "R=noconn" else
-            let e = (match what with "add" -> Hap.EPairingsAdd (ascii ctrl, keyid ctrl) | "remove" -> Hap.EPairingsRemove (ascii ctrl) | _ -> Hap.EPairingsOther) in
+            let e = (match what with "add" -> Hap.EPairingsAdd (ascii ctrl, keyid ctrl) | "addnokey" -> Hap.EPairingsAdd (ascii ctrl, N0)
+                           | "remove" -> Hap.EPairingsRemove (ascii ctrl) | _ -> Hap.EPairingsOther) in
             emit ("R=" ^ resp_tlv (req c e))
         | ["X"; c; ep; _m] ->
           if not (alive c) then emit "X=noconn" else begin
